@@ -5,7 +5,7 @@
                the harness as a hint and CHECKED here) is the node that carries the use edge w -> b. *)
 From Coq Require Import List NArith Bool.
 Import ListNotations.
-Require Import Verif.Model.C17_Graph Verif.Model.C17_Check.
+Require Import Verif.Model.C17_Graph Verif.Model.C17_Merge Verif.Model.C17_Check.
 Open Scope N_scope.
 
 Definition ref := (N * N * N)%type.
@@ -94,3 +94,10 @@ Definition caseD_violation (c : caseD) : list ddiag :=
   map DDanglingWrite (failing (fun r => match r with (a, _, b) => vmem a del || negb (vmem b del) end) (d_wrefs c)) ++
   match g_res1 (d_graph c) with (_, un, _) =>
     map DNotReported (filter (fun l => negb (memN l un)) (d_cands c)) end.
+
+(* ---------------------------------------------------------------- second half through the real linter path
+   l_expected: for every package of a module (several packages share their NAME, file base names and lines), the
+   U1000 problems of its zero-reference candidates (computed from go/types per package);
+   l_cli: the U1000 problems printed by the staticcheck binary over the whole module. *)
+Record caseL := mkL { l_expected : list problem; l_cli : list problem }.
+Definition caseL_violation (c : caseL) : list problem := set_diff (l_expected c) (l_cli c).
